@@ -184,6 +184,24 @@ func init() {
 	register("chgExt", func(n int) {
 		for i := 0; i < n; i++ {
 			l := randExtList(4)
+			if rng.Intn(15) == 0 {
+				// a ground-level voxel and, next to it in the list, a finer voxel of the same (or a descendant) tile JUST BELOW ground:
+				// f = 0 at the coarse zoom does not contain f = -1 … -(2^d - 1) at the finer one (floor, not truncation)
+				a := randExt()
+				a.f = 0
+				if a.v < 33 && a.h < 34 {
+					d := int64(1 + rng.Intn(2))
+					dh := int64(rng.Intn(2))
+					b := ext{a.h + dh, a.x<<uint(dh) + int64(rng.Intn(1<<uint(dh))), a.y<<uint(dh) + int64(rng.Intn(1<<uint(dh))), a.v + d, -1 - int64(rng.Intn(1<<uint(d)-1+1))%(1<<uint(d))}
+					if b.f <= -(int64(1) << uint(d)) {
+						b.f = -1
+					}
+					l = []ext{a, b}
+					if rng.Intn(3) == 0 {
+						l = []ext{b, a}
+					}
+				}
+			}
 			// target zooms: bounded refinement (≤ +3 horizontally, ≤ +5 vertically) relative to the coarsest input
 			minH, minV := int64(35), int64(35)
 			for _, e := range l {
